@@ -66,11 +66,19 @@ def extract(src, cfg, crate='reed_solomon_simd'):
             pre = 'facts-%s-' % cfg.replace('+', '_')
             olds = sorted((f for f in os.listdir(CACHE) if f.startswith(pre) and f.endswith('.json')),
                           key=lambda f: os.path.getmtime(os.path.join(CACHE, f)))
-            for f in olds[:-6]:
+            # (the self-test analyses a dozen variants at once, each with several checks: a small cache thrashes)
+            for f in olds[:-48]:
                 try:
                     os.unlink(os.path.join(CACHE, f))
                 except OSError:
                     pass
+            for f in os.listdir(CACHE):       # leftovers of interrupted runs
+                if '.json.tmp.' in f:
+                    try:
+                        if time.time() - os.path.getmtime(os.path.join(CACHE, f)) > 3600:
+                            os.unlink(os.path.join(CACHE, f))
+                    except OSError:
+                        pass
     finally:
         fcntl.flock(lock, fcntl.LOCK_UN)
         lock.close()
